@@ -15,20 +15,118 @@ namespace {
 
 using namespace tcpadv;
 
+
+// ---------------------------------------------------------------------------------------------
+// second family: a socket object is closed and used for a new connection while packets of its
+// earlier connection are still on their way to it (the earlier peer keeps sending, or has just closed)
+// ---------------------------------------------------------------------------------------------
+struct ReuseCfg { int side; /*0 the connecting socket is re-used, 1 the accepted-into socket*/ int moment; /*0 in the establishment handler, 1 at the first read completion, 2 after 3 ms, 3 after 60 ms*/ int lat_ms; int old_peer_closes; };
+std::string reuse_str(ReuseCfg const& r)
+{
+	static const char* mo[] = { "in the establishment handler", "at its first read completion", "3 ms after establishment", "60 ms after establishment" };
+	return fmt("reuse of the %s socket %s, route latency %d ms, earlier peer %s", r.side == 0 ? "connecting" : "accepted-into", mo[r.moment], r.lat_ms, r.old_peer_closes ? "closes after its data" : "keeps its socket open");
+}
+inline char rbyte(int stream, int64_t i) { return char((stream * 89 + i * 11 + (i >> 7) * 3 + 5) & 0xff); }
+
+struct ReuseRes { std::vector<std::string> fails; std::string summary; uint64_t handlers = 0; };
+
+ReuseRes run_reuse(ReuseCfg const& rc)
+{
+	ReuseRes R; auto fail = [&](std::string const& x) { if (R.fails.size() < 8) R.fails.push_back(x); };
+	World w; int const lat = rc.lat_ms;
+	w.on_build = [lat](World& ww, sim::simulation&) { auto q = ww.queue(2000000, ms(lat), 0); ww.chan = [q](ip::address, ip::address) { return World::hops_t{ q }; }; };
+	sim::simulation sim(w);
+	asio::io_context nA(sim, addr("10.0.0.1")), nA2(sim, addr("10.0.0.2")), nB(sim, addr("10.0.1.1"));
+	// the re-used object R, its earlier peer P1 and its later peer P2. Streams: 1 = P1 -> R, 2 = R -> P1 (first use), 3 = P2 -> R, 4 = R -> P2 (second use)
+	ip::tcp::acceptor acc(nB); acc.open(ip::tcp::v4()); acc.bind(ip::tcp::endpoint(addr("10.0.1.1"), 6000)); acc.listen();
+	ip::tcp::socket c1(nA), c2(nA2), sv(nB), sv2(nB);
+	ip::tcp::socket& Rs = rc.side == 0 ? c1 : sv;          // the re-used object
+	ip::tcp::socket& P1 = rc.side == 0 ? sv : c1;          // earlier peer
+	ip::tcp::socket& P2 = rc.side == 0 ? sv2 : c2;         // later peer
+	int use = 1; bool reused = false; bool first_read_seen = false;
+	std::string in_R[3], in_P1, in_P2; int eof_R[3] = { 0, 0, 0 }; bool data_after_eof = false;
+	size_t const N1 = 30000, N2 = 5000, N3 = 9000, N4 = 3000;
+	std::string s1(N1, 0), s2(N2, 0), s3(N3, 0), s4(N4, 0);
+	for (size_t i = 0; i < N1; ++i) s1[i] = rbyte(1, int64_t(i)); for (size_t i = 0; i < N2; ++i) s2[i] = rbyte(2, int64_t(i)); for (size_t i = 0; i < N3; ++i) s3[i] = rbyte(3, int64_t(i)); for (size_t i = 0; i < N4; ++i) s4[i] = rbyte(4, int64_t(i));
+	struct W { ip::tcp::socket* s; std::string const* d; size_t off = 0; bool close_after; bool stopped = false; };
+	W wP1{ &P1, &s1, 0, rc.old_peer_closes != 0 }, wR1{ &Rs, &s2, 0, false }, wP2{ &P2, &s3, 0, true }, wR2{ &Rs, &s4, 0, false };
+	std::function<void(W*)> pump = [&](W* x) { if (x->stopped) return; if (x->off >= x->d->size()) { if (x->close_after) { error_code ig; x->s->close(ig); } return; }
+		x->s->async_write_some(asio::buffer(x->d->data() + x->off, x->d->size() - x->off), [&, x](error_code const& ec, std::size_t n) { ++R.handlers; if (ec || x->stopped) return; x->off += n; pump(x); }); };
+	std::vector<char> bR(1500), bP1(1500), bP2(1500);
+	std::function<void()> do_reuse, readR, readP1, readP2;
+	asio::high_resolution_timer tm(sim.get_io_context());
+	readP1 = [&]() { P1.async_read_some(asio::buffer(bP1), [&](error_code const& ec, std::size_t n) { ++R.handlers; if (ec) return; in_P1.append(bP1.data(), n); readP1(); }); };
+	readP2 = [&]() { P2.async_read_some(asio::buffer(bP2), [&](error_code const& ec, std::size_t n) { ++R.handlers; if (ec) return; in_P2.append(bP2.data(), n); readP2(); }); };
+	readR = [&]() { int u = use; Rs.async_read_some(asio::buffer(bR), [&, u](error_code const& ec, std::size_t n) { ++R.handlers;
+		if (ec == asio::error::eof) { ++eof_R[u]; return; } if (ec) return;
+		if (eof_R[u]) data_after_eof = true; in_R[u].append(bR.data(), n);
+		if (u == 1 && !first_read_seen) { first_read_seen = true; if (rc.moment == 1) { do_reuse(); return; } }
+		if (u == use) readR(); }); };
+	auto established_first = [&]() { // R's first connection is up
+		readR(); pump(&wR1);
+		if (rc.moment == 0) do_reuse();
+		else if (rc.moment >= 2) { tm.expires_after(ms(rc.moment == 2 ? 3 : 60)); tm.async_wait([&](error_code const& ec) { if (!ec) do_reuse(); }); } };
+	do_reuse = [&]() {
+		if (reused) return; reused = true; wR1.stopped = true; error_code ig; Rs.close(ig); use = 2;
+		if (rc.side == 0) { // the connecting socket dials again; a second accepted socket answers
+			acc.async_accept(sv2, [&](error_code const& ec) { ++R.handlers; if (ec) { fail("establish: second accept: " + ecs(ec)); return; } readP2(); pump(&wP2); });
+			Rs.async_connect(ip::tcp::endpoint(addr("10.0.1.1"), 6000), [&](error_code const& ec) { ++R.handlers; if (ec) { fail("establish: second connect on the re-used socket: " + ecs(ec)); return; } readR(); pump(&wR2); });
+		} else { // the accepted-into socket is accepted into again; another client connects
+			acc.async_accept(Rs, [&](error_code const& ec) { ++R.handlers; if (ec) { fail("establish: second accept into the re-used socket: " + ecs(ec)); return; } readR(); pump(&wR2); });
+			c2.async_connect(ip::tcp::endpoint(addr("10.0.1.1"), 6000), [&](error_code const& ec) { ++R.handlers; if (ec) { fail("establish: second client: " + ecs(ec)); return; } readP2(); pump(&wP2); });
+		} };
+	// first connection: c1 -> acceptor -> sv
+	int up = 0;
+	acc.async_accept(sv, [&](error_code const& ec) { ++R.handlers; if (ec) return; if (rc.side == 0) { readP1(); pump(&wP1); } else { if (++up == 2) {} established_first(); } });
+	c1.async_connect(ip::tcp::endpoint(addr("10.0.1.1"), 6000), [&](error_code const& ec) { ++R.handlers; if (ec) return; if (rc.side == 0) established_first(); else { readP1(); pump(&wP1); } });
+	try { sim.run(); } catch (std::exception const& e) { fail(std::string("exception: ") + e.what()); }
+	// ---- oracle: the second use of the object carries streams 3 (in) and 4 (out) only ----
+	auto first_diff = [](std::string const& got, std::string const& want) { size_t i = 0; while (i < got.size() && i < want.size() && got[i] == want[i]) ++i; return i; };
+	if (!reused) fail("harness: the re-use never happened");
+	if (in_R[2] != s3.substr(0, in_R[2].size())) { size_t d = first_diff(in_R[2], s3); bool old = d < in_R[2].size() && in_R[2][d] == s1[d % N1];
+		fail(fmt("carry_over: on its second connection the re-used socket received %zu bytes; byte %zu is 0x%02x, the new peer wrote 0x%02x there%s", in_R[2].size(), d, (unsigned char)in_R[2][d], (unsigned char)s3[d], in_R[2].substr(d, 16) == s1.substr(d, 16) || old ? " (it is what the earlier peer wrote)" : "")); }
+	else if (in_R[2].size() != N3) fail(fmt("reuse: the re-used socket received %zu of the %zu bytes its new peer wrote (loss-free route)", in_R[2].size(), N3));
+	if (eof_R[2] != 1) fail(fmt("eof: the second connection of the re-used socket saw %d end-of-file reports, its new peer closed after writing everything", eof_R[2]));
+	else if (in_R[2].size() < N3) fail(fmt("eof: end-of-file on the second connection after %zu of %zu bytes", in_R[2].size(), N3));
+	if (data_after_eof) fail("eof: data was delivered after end-of-file");
+	if (in_P2 != s4.substr(0, in_P2.size())) { size_t d = first_diff(in_P2, s4); fail(fmt("carry_over: the new peer received byte %zu = 0x%02x, the re-used socket wrote 0x%02x there on this connection (queued for sending on the earlier connection?)", d, (unsigned char)in_P2[d], (unsigned char)s4[d])); }
+	else if (in_P2.size() != N4) fail(fmt("reuse: the new peer received %zu of %zu bytes", in_P2.size(), N4));
+	if (in_R[1] != s1.substr(0, in_R[1].size())) fail("prefix: the first connection delivered bytes that are not a prefix of what the earlier peer wrote");
+	if (in_P1 != s2.substr(0, in_P1.size())) fail("prefix: the earlier peer received bytes that are not a prefix of what was written to it on the first connection");
+	R.summary = fmt("first use: in %zu out-delivered %zu; second use: in %zu/%zu out-delivered %zu/%zu, eof %d", in_R[1].size(), in_P1.size(), in_R[2].size(), N3, in_P2.size(), N4, eof_R[2]);
+	error_code ig; wP1.stopped = wP2.stopped = wR2.stopped = true; c1.close(ig); c2.close(ig); sv.close(ig); sv2.close(ig); acc.close(ig); tm.cancel();
+	try { sim.run(); } catch (std::exception const&) {}
+	return R;
+}
+
 struct StreamEngine : Engine
 {
-	std::vector<Cfg> cfgs; int N = 6, K = 2;
+	std::vector<Cfg> cfgs; int N = 6, K = 2; std::vector<ReuseCfg> reuse;
 	uint64_t units(Args const& a) override
 	{
+		reuse.clear(); for (int side = 0; side < 2; ++side) for (int m = 0; m < 4; ++m) for (int lat : { 1, 40 }) for (int pc = 0; pc < 2; ++pc) reuse.push_back(ReuseCfg{ side, m, lat, pc });
 		cfgs.clear(); N = a.thorough() ? 8 : 6; K = a.thorough() ? 3 : 2;
 		for (int r = 0; r < 3; ++r) for (int wp = 0; wp < 6; ++wp) for (int rp = 0; rp < 7; ++rp) for (int cm = 0; cm < 3; ++cm) for (int d = 0; d < 3; ++d) {
 			if (!a.thorough() && r == 2 && (rp == 0 || wp == 4)) continue; // slow route with 7-byte reads / longest plan: thorough only
 			cfgs.push_back(Cfg{ r, wp, rp, cm, d });
 		}
-		return cfgs.size();
+		return cfgs.size() + reuse.size();
+	}
+	void reuse_unit(size_t i, Ctx& ctx)
+	{
+		ctx.watchdog_s = 30;
+		if (!ctx.next_case()) return;
+		Case c; c.set("reuse", (long long)i);
+		ctx.begin(c);
+		ReuseRes r = run_reuse(reuse[i]);
+		ctx.R.transitions += r.handlers; ctx.state(reuse_str(reuse[i])); ctx.outcome(r.summary); ctx.R.counters["reuse_in_flight_scenarios"]++;
+		auto clause_of = [](std::string const& x) { return x.substr(0, x.find(':')); };
+		for (auto& f : r.fails) add_violation(ctx, clause_of(f), c, reuse_str(reuse[i]) + ": " + f + " | " + r.summary, "reuse-in-flight/" + clause_of(f));
+		ctx.end();
 	}
 	void run_unit(uint64_t u, Ctx& ctx) override
 	{
+		if (u >= cfgs.size()) { reuse_unit(size_t(u - cfgs.size()), ctx); return; }
 		ctx.watchdog_s = 20;
 		Cfg const& cfg = cfgs[size_t(u)];
 		for (int k = 0; k <= K; ++k) {
@@ -64,6 +162,14 @@ struct StreamEngine : Engine
 	int replay(Case const& c, Args const& a) override
 	{
 		units(a); N = int(c.num("n", N));
+		if (c.has("reuse")) {
+			ReuseCfg const& rc = reuse.at(size_t(c.num("reuse")));
+			ReuseRes r = run_reuse(rc);
+			std::fprintf(stdout, "%s\n%s\n", reuse_str(rc).c_str(), r.summary.c_str());
+			for (auto& f : r.fails) std::fprintf(stdout, "VIOLATION %s\n", f.c_str());
+			std::fprintf(stdout, r.fails.empty() ? "=> ok\n" : "=> %zu violation(s)\n", r.fails.size());
+			return r.fails.empty() ? 0 : 1;
+		}
 		Cfg const& cfg = cfgs.at(size_t(c.num("cfg")));
 		std::fprintf(stdout, "%s\n", cfg_str(cfg).c_str());
 		Chooser ch; ch.reset(c.ints("choices")); Exec e; e.cfg = cfg; e.ch = &ch; e.ctx = nullptr; e.N = N; e.live = true;  e.run();
